@@ -49,6 +49,7 @@ type node struct {
 	peerID  peer.ID
 	ctrl    *transport_controller.Controller
 	handler transport.TransportHandler
+	hch     chan transport.TransportHandler
 	tpt     *fakeTransport
 }
 
@@ -65,6 +66,50 @@ var errRig = errors.New("verif: rig setup failed")
 
 // newRig builds a bus with len(keyIdxs) local identities.
 func newRig(keyIdxs ...int) (*rig, error) {
+	r, release, err := newRigGated(keyIdxs...)
+	if err != nil {
+		return nil, err
+	}
+	if err := release(); err != nil {
+		r.close()
+		return nil, err
+	}
+	return r, nil
+}
+
+// newRigGated builds the bus and attaches the transport controllers, but their transports are not
+// constructed until release() is called (requests can be registered "during start-up").
+func newRigGated(keyIdxs ...int) (*rig, func() error, error) {
+	gate := make(chan struct{})
+	r, err := newRigWithGate(gate, keyIdxs...)
+	if err != nil {
+		return nil, nil, err
+	}
+	released := false
+	release := func() error {
+		if !released {
+			released = true
+			close(gate)
+		}
+		for _, n := range r.nodes {
+			select {
+			case n.handler = <-n.hch:
+			case <-time.After(10 * time.Second):
+				return errRig
+			}
+			gctx, gcancel := context.WithTimeout(r.ctx, 10*time.Second)
+			_, err := n.ctrl.GetTransport(gctx)
+			gcancel()
+			if err != nil {
+				return err
+			}
+		}
+		return nil
+	}
+	return r, release, nil
+}
+
+func newRigWithGate(gate chan struct{}, keyIdxs ...int) (*rig, error) {
 	ctx, cancel := context.WithCancel(context.Background())
 	r := &rig{ctx: ctx, cancel: cancel}
 	tb, err := testbed.NewTestbed(ctx, quietLog, testbed.TestbedOpts{NoEcho: true, PrivKey: gen.Key(keyIdxs[0])})
@@ -90,11 +135,17 @@ func newRig(keyIdxs ...int) (*rig, error) {
 		}
 		n := &node{keyIdx: k, peerID: gen.PeerID(k)}
 		hch := make(chan transport.TransportHandler, 1)
+		n.hch = hch
 		n.tpt = &fakeTransport{uuid: uint64(7000 + i), pid: n.peerID}
 		n.ctrl = transport_controller.NewController(quietLog, tb.Bus,
 			controller.NewInfo("verif/fake-transport", semver.MustParse("0.0.1"), "fake"),
 			n.peerID, false,
 			func(ctx context.Context, le *logrus.Entry, pkey crypto.PrivKey, handler transport.TransportHandler) (transport.Transport, error) {
+				select {
+				case <-gate:
+				case <-ctx.Done():
+					return nil, context.Canceled
+				}
 				select {
 				case hch <- handler:
 				default:
@@ -107,19 +158,6 @@ func newRig(keyIdxs ...int) (*rig, error) {
 			return nil, err
 		}
 		r.rels = append(r.rels, rel)
-		select {
-		case n.handler = <-hch:
-		case <-time.After(10 * time.Second):
-			r.close()
-			return nil, errRig
-		}
-		gctx, gcancel := context.WithTimeout(ctx, 10*time.Second)
-		_, err = n.ctrl.GetTransport(gctx)
-		gcancel()
-		if err != nil {
-			r.close()
-			return nil, err
-		}
 		r.nodes = append(r.nodes, n)
 	}
 	return r, nil
